@@ -245,12 +245,18 @@ partial def toIR : Sexp → Except String IR
     | none => .error "GetTupleElement"
   | .list [.atom "ToSet", a] => do pure (.toSet (← toIR a))
   | .list [.atom "ToDict", a] => do pure (.toDict (← toIR a))
-  | .list (.atom "Apply" :: .atom _ :: .atom fn :: .list [] :: .atom _ :: args) => do
-    match convTarget fn, fn, args with
+  | .list (.atom "Apply" :: .atom _ :: .atom fn :: .list [] :: .atom ret :: args) => do
+    let declared ← readType ret
+    let body ← match convTarget fn, fn, args with
     | some t, _, [a] => pure (.cast (← toIR a) t)
     | none, "indexArray", [a, i] => pure (.arrayRef (← toIR a) (← toIR i))
     | none, "index", [d, k] => pure (.dictGet (← toIR d) (← toIR k))
+    | none, "land", [a, b] => pure (.ite (← toIR a) (← toIR b) (.bool false))            -- `a & b` on booleans
+    | none, "lor", [a, b] => pure (.ite (← toIR a) (.bool true) (← toIR b))
     | _, _, _ => throw s!"Apply {fn}"
+    pure (.ascribe body declared)
+  | .list [.atom "EncodedLiteral", .atom t, .str _] => do pure (.na (← readType t))     -- an opaque constant of its declared type
+  | .list [.atom "Literal", .atom t, .str _] => do pure (.na (← readType t))
   | .list [.atom "StreamAgg", .atom x, a, q] => do pure (.streamAgg (mkName x) (← toIR a) (← toIR q))
   | .list [.atom "AggLet", .atom x, .atom "False", v, b] => do pure (.aggLet (mkName x) (← toIR v) (← toIR b))
   | .list [.atom "AggFilter", .atom "False", c, b] => do pure (.aggFilter (← toIR c) (← toIR b))
